@@ -156,6 +156,17 @@ def run_case(case, workdir):
                 V += O._coherence_one("rejection-sampled set", r.model.target, None, rs.x, getattr(rs, "log_likelihood", None),
                                       getattr(rs, "log_prior", None), None, O.run_bits(r, scn), where)
                 probes["rejection_sampled_sets_judged"] = 1
+        if r.aspire is not None and r.samples is not None and len(r.samples.x) and getattr(r.aspire, "flow", None) is not None:
+            # Aspire.convert_to_samples: the instance's own way of turning bare coordinates into an evaluated, weighted set
+            try:
+                xs = r.samples.x[: min(8, len(r.samples.x))]
+                cs = r.aspire.convert_to_samples(xs, log_q=r.aspire.flow.log_prob(xs))
+            except Exception as e:  # noqa: BLE001 -- not a matter of C10 (counted, not judged)
+                probes["convert_to_samples_raised:" + type(e).__name__] = 1
+            else:
+                V += O._coherence_one("set built by Aspire.convert_to_samples", r.model.target, r.aspire.flow, cs.x, cs.log_likelihood,
+                                      cs.log_prior, cs.log_q, O.run_bits(r, scn), where)
+                probes["convert_to_samples_sets_judged"] = 1
         if info.get("retry_loop_ran"):
             probes["initial_draw_retry_loop_ran"] = 1
         keys.append([scn["sampler"], scn["xp"], scn["dtype"], scn["_precond"], scn["checkpoint"]["mode"],
